@@ -744,9 +744,11 @@ func init() {
 		defer env.close()
 		rng := newRand(16)
 		n := tierN(1500, 50000)
+		phase(0.85)
 		for i := 0; i < n && !expired(); i++ {
 			c16Case(r, m, env, rng, i)
 		}
+		phase(1)
 		for i := 0; i < tierN(20, 300) && !expired(); i++ {
 			c16StartRule(r, env, rng, i)
 		}
